@@ -28,10 +28,10 @@ type NodeDump struct {
 }
 
 type TreeDump struct {
-	Root    int64      `json:"root"` // index of Root() or -1
-	Cur     int64      `json:"cur"`  // index of Current() or -1
-	Nodes   []NodeDump `json:"nodes"`
-	Beyond  []bool     `json:"beyond"` // FindCall(n), FindCall(n+1) != nil
+	Root   int64      `json:"root"` // index of Root() or -1
+	Cur    int64      `json:"cur"`  // index of Current() or -1
+	Nodes  []NodeDump `json:"nodes"`
+	Beyond []bool     `json:"beyond"` // FindCall(n), FindCall(n+1) != nil
 }
 
 // DumpTree queries indices 0.. until FindCall returns nil, then two more.
